@@ -527,16 +527,21 @@ func opNewDerived(h *Hist) {
 			n.Elems = append(n.Elems, mv)
 		}
 		var l at.List
-		switch kind {
-		case 0:
-			l = NewDList(gvs...)
-			n.Name = "DL" + strconv.Itoa(n.ID)
-		case 1:
-			l = NewDDList(gvs...)
-			n.Name = "DDL" + strconv.Itoa(n.ID)
-		default:
-			l = NewDDDList(gvs...)
-			n.Name = "DDDL" + strconv.Itoa(n.ID)
+		// (registering a derived structure — Init at every embedding level, as in the README — is part of what C19 describes)
+		p, msg := h.call(func() {
+			switch kind {
+			case 0:
+				l = NewDList(gvs...)
+			case 1:
+				l = NewDDList(gvs...)
+			default:
+				l = NewDDDList(gvs...)
+			}
+		})
+		n.Name = []string{"DL", "DDL", "", "DDDL"}[kind] + strconv.Itoa(n.ID)
+		if !h.mustNotPanic(p, msg) {
+			h.dropNode(n)
+			return
 		}
 		h.bind(n, l)
 		h.verifyFrom(n, []string{"C19"})
@@ -553,11 +558,21 @@ func opNewDerived(h *Hist) {
 			args = append(args, key, gv)
 			n.Fields[key] = mv
 		}
-		var o at.Object = NewDObject(args...)
+		var o at.Object
 		if kind == 4 {
-			o = NewDDObject(args...)
 			n.Derived = 2
 			n.Name = "DDO" + strconv.Itoa(n.ID)
+		}
+		p, msg := h.call(func() {
+			if kind == 4 {
+				o = NewDDObject(args...)
+			} else {
+				o = NewDObject(args...)
+			}
+		})
+		if !h.mustNotPanic(p, msg) {
+			h.dropNode(n)
+			return
 		}
 		h.bind(n, o)
 		h.verifyFrom(n, []string{"C19"})
